@@ -25,6 +25,7 @@ type Engine struct {
 	inlinePkgs map[string]bool
 	fnByKey    map[string]*ssa.Function
 	loadErrs   []string
+	interiorTypes map[string]bool
 }
 
 func loadEngine(repoDir string, specDir string) (*Engine, error) {
@@ -53,6 +54,34 @@ func loadEngine(repoDir string, specDir string) (*Engine, error) {
 	}
 	for fn := range ssautil.AllFunctions(prog) {
 		e.fnByKey[fn.String()] = fn
+	}
+	// struct types whose slice elements have their address taken as a value
+	e.interiorTypes = map[string]bool{}
+	for fn := range ssautil.AllFunctions(prog) {
+		if fn.Pkg == nil || !strings.HasPrefix(fn.Pkg.Pkg.Path(), e.modPath) {
+			continue
+		}
+		for _, b := range fn.Blocks {
+			for _, ins := range b.Instrs {
+				ia, ok := ins.(*ssa.IndexAddr)
+				if !ok {
+					continue
+				}
+				for _, ref := range *ia.Referrers() {
+					switch r := ref.(type) {
+					case *ssa.UnOp, *ssa.DebugRef, *ssa.FieldAddr, *ssa.IndexAddr:
+					case *ssa.Store:
+						if r.Val == ia {
+							e.interiorTypes[typeKey(derefType(ia.Type()))] = true
+						}
+					default:
+						if _, isStruct := derefType(ia.Type()).Underlying().(*types.Struct); isStruct {
+							e.interiorTypes[typeKey(derefType(ia.Type()))] = true
+						}
+					}
+				}
+			}
+		}
 	}
 	// shared spec files
 	if specDir != "" {
